@@ -1079,6 +1079,18 @@ class SymCtx:
         self.input_meta[name] = ("bool", None, None)
         return x
 
+    def string(self, name, language=None):
+        """A symbolic string, optionally constrained to a z3 regular language."""
+        from .strre import SymStr
+
+        t = z3.String(name)
+        x = SymStr(t)
+        self.inputs[name] = x
+        self.input_meta[name] = ("str", None, None)
+        if language is not None:
+            self.assume(wrap(z3.InRe(t, language)))
+        return x
+
     def choice(self, name, options):
         """A value from a finite list, chosen by the solver (forks)."""
         options = list(options)
@@ -1413,6 +1425,8 @@ def _val_to_json(v):
     if z3.is_algebraic_value(v):
         a = v.approx(20)
         return f"{a.numerator_as_long()}/{a.denominator_as_long()}"
+    if z3.is_string_value(v):
+        return {"str": v.as_string()}
     raise _Unobservable(str(v))
 
 
@@ -1506,6 +1520,17 @@ class ConcreteCtx:
 
     def bool(self, name):
         v = bool(self.values.get(name, False))
+        self.inputs[name] = v
+        return v
+
+    def string(self, name, language=None):
+        v = self.values.get(name, "")
+        if isinstance(v, dict):
+            v = v.get("str", "")
+        # z3 prints non-printable characters as \u{..} escapes
+        import re as _re
+
+        v = _re.sub(r"\\u\{([0-9a-fA-F]+)\}", lambda m: chr(int(m.group(1), 16)), v)
         self.inputs[name] = v
         return v
 
